@@ -5,21 +5,48 @@
    model accepts from the initial state — any number of join / rejoin / leave /
    cancel calls on any addresses, interleaved in any order with any stanzas of
    the service — and s is the state it leads to. The model (C18/Model.v) is the
-   code after the fix: commits of branch verif-C18. *)
+   code after the fix: commits of branch verif-C18 (on /repo main). *)
 From Coq Require Import List Bool Arith.
 Import ListNotations.
 From XV Require Import lib.Lts C18.Model C18.Proofs.
 
+(* Channels are objects (h : chid); several may have the same occupant address
+   (every Client.Join makes one: LNew h a). [table s a] is the Channel registered
+   for address a: last registration wins. *)
+
 (* ---- Join ---- *)
 
-(* Join returns success only after the room's self-presence for the requested
-   occupant address has arrived: an available presence from that address was
-   handled after the call started and before it returned. *)
-Theorem C18_join_success_only_after_self_presence : forall tr s k a,
-  exec (tr ++ [LRet k OSuccess]) = Some s -> In (LCall k KJoin a) tr ->
-  exists t1 t2 t3, tr = t1 ++ LCall k KJoin a :: t2 ++ LDeliver (PresAvail a) :: t3.
+(* Join on Channel h returns success only after the room's self-presence for the
+   requested occupant address has arrived: after the call started an available
+   presence from h's address a was handled; WHEN IT WAS LOOKED UP (state s1) h WAS
+   THE REGISTERED CHANNEL for a; and the return belongs to the handling of that
+   very presence (nothing else was delivered, no Channel was registered since). *)
+Theorem C18_join_success_only_after_self_presence : forall tr s k h,
+  exec (tr ++ [LRet k OSuccess]) = Some s -> In (LCall k KJoin h) tr ->
+  exists t1 t2 t3 a s1,
+    tr = t1 ++ LCall k KJoin h :: t2 ++ LDeliver (PresAvail a) :: t3 /\
+    exec (t1 ++ LCall k KJoin h :: t2) = Some s1 /\
+    table s1 a = Some h /\ ch_addr (chans s1 h) = a /\
+    (forall st, ~ In (LDeliver st) t3) /\ (forall k' h', ~ In (LCall k' KJoin h') t3) /\
+    (forall h' a', ~ In (LNew h' a') t3).
 Proof. exact join_success_after_self_presence. Qed.
 Print Assumptions C18_join_success_only_after_self_presence.
+
+(* Every Join call registers its Channel for its address, whatever the state of
+   the Channel (joined or not): after an accepted LCall k KJoin h the table
+   entry of h's address is h ... *)
+Theorem C18_join_call_registers : forall tr s k h,
+  exec (tr ++ [LCall k KJoin h]) = Some s -> table s (ch_addr (chans s h)) = Some h.
+Proof. exact join_call_registers_r. Qed.
+Print Assumptions C18_join_call_registers.
+
+(* ... and an available presence is offered, for the whole of its handling, to
+   join contexts of the registered Channel only. *)
+Theorem C18_presence_goes_to_registered_channel : forall tr s a h s' k c,
+  exec tr = Some s -> table s a = Some h ->
+  step s (LDeliver (PresAvail a)) = Some s' -> srv s' = SOffer k -> calls s' k = Some c -> c_chan c = h.
+Proof. exact presence_goes_to_registered_channel. Qed.
+Print Assumptions C18_presence_goes_to_registered_channel.
 
 (* A call (Join or Leave) returns the room's stanza error only if the room
    answered that very request with an error, after the call started. *)
@@ -53,17 +80,18 @@ Theorem C18_error_reply_is_returned : forall tr s k c,
 Proof. exact error_reply_returned_r. Qed.
 Print Assumptions C18_error_reply_is_returned.
 
-(* When the self-presence for the address of a waiting, uncancelled join is
-   handled, the join can return success — Joined() is true from then on — and
+(* When the self-presence for address a is handled while Channel h is registered
+   for a and the context of a waiting, uncancelled join on h is the pending one,
+   that join can return success — Joined() on h is true from then on — and
    nothing else. *)
-Theorem C18_self_presence_completes_join : forall tr s k c a rest,
+Theorem C18_self_presence_completes_join : forall tr s k c a h rest,
   exec tr = Some s ->
-  srv s = SIdle -> ch_entry (chans s a) = true -> ch_jq (chans s a) = k :: rest ->
-  calls s k = Some c -> c_kind c = KJoin -> c_addr c = a -> c_phase c = PWait -> c_done c = false ->
+  srv s = SIdle -> table s a = Some h -> ch_jq (chans s h) = k :: rest ->
+  calls s k = Some c -> c_kind c = KJoin -> c_chan c = h -> c_phase c = PWait -> c_done c = false ->
   exists s1 s2,
     step s (LDeliver (PresAvail a)) = Some s1 /\
     step s1 (LRet k OSuccess) = Some s2 /\
-    ch_joined (chans s2 a) = true /\
+    ch_joined (chans s2 h) = true /\
     step s1 (LRet k OCtxErr) = None /\
     step s1 (LRet k OStanzaErr) = None.
 Proof. exact self_presence_completes_join_r. Qed.
@@ -74,100 +102,117 @@ Print Assumptions C18_self_presence_completes_join.
    context, the blocked publisher gets the buffer slot, the handler sees the
    stale context done, takes the new one and completes the join; the presence
    callback is not invoked. *)
-Theorem C18_stale_join_context_skipped : forall tr s k0 c0 k c a rest,
+Theorem C18_stale_join_context_skipped : forall tr s k0 c0 k c a h rest,
   exec tr = Some s ->
-  srv s = SIdle -> ch_entry (chans s a) = true -> ch_jq (chans s a) = k0 :: k :: rest ->
-  calls s k0 = Some c0 -> c_done c0 = true -> c_addr c0 = a ->
-  calls s k = Some c -> c_kind c = KJoin -> c_addr c = a -> c_phase c = PQueued ->
+  srv s = SIdle -> table s a = Some h -> ch_jq (chans s h) = k0 :: k :: rest ->
+  calls s k0 = Some c0 -> c_done c0 = true -> c_chan c0 = h ->
+  calls s k = Some c -> c_kind c = KJoin -> c_chan c = h -> c_phase c = PQueued ->
   k <> k0 -> mem k rest = false ->
   exists s1 s2 s3 s4,
     step s (LDeliver (PresAvail a)) = Some s1 /\ step s1 (LPushed k) = Some s2 /\
     step s2 LSeeDone = Some s3 /\ step s3 (LRet k OSuccess) = Some s4 /\
-    ch_joined (chans s4 a) = true /\ cb_pres s4 = cb_pres s.
+    ch_joined (chans s4 h) = true /\ cb_pres s4 = cb_pres s.
 Proof. exact stale_context_skipped_r. Qed.
 Print Assumptions C18_stale_join_context_skipped.
 
 (* ---- membership ---- *)
 
-(* The property: Joined() is true exactly from a successful join until the
-   occupant's unavailable presence has been handled ([member_window] reads that
-   window off the history alone). *)
+(* The property: Joined() on a Channel is true exactly from a successful join on
+   it until the unavailable presence of its occupant address has been handled
+   ([member_window] reads that window off the history alone). *)
 Definition C18_membership_window_statement : Prop :=
-  forall tr s a, exec tr = Some s -> ch_joined (chans s a) = member_window tr a.
+  forall tr s h, exec tr = Some s -> ch_joined (chans s h) = member_window tr h.
 
-(* It holds on every history in which no Leave on that address returned the
-   room's error ... *)
-Theorem C18_membership_window_partial : forall tr s a,
+(* It holds on every history in which no Leave on that Channel returned the
+   room's error and the Channel is never orphaned (whenever the unavailable
+   presence of its address is handled while it is a member, it is the registered
+   Channel: no other Channel for the same address has replaced it) ... *)
+Theorem C18_membership_window_partial : forall tr s h,
   exec tr = Some s ->
-  (forall k, In (LRet k OStanzaErr) tr -> ~ In (LCall k KLeave a) tr) ->
-  ch_joined (chans s a) = member_window tr a.
+  (forall k, In (LRet k OStanzaErr) tr -> ~ In (LCall k KLeave h) tr) ->
+  never_orphaned tr h ->
+  ch_joined (chans s h) = member_window tr h.
 Proof. exact membership_window_partial. Qed.
 Print Assumptions C18_membership_window_partial.
 
-(* ... and in general membership is exactly that window cut short by a Leave
-   that returned the room's error ([member_impl]); every value Joined() returns
-   is that one. *)
-Theorem C18_membership_exact : forall tr s a,
-  exec tr = Some s -> ch_joined (chans s a) = member_impl tr a.
+(* ... and in general membership is exactly [member_impl]: that window cut short
+   by a Leave that returned the room's error, and not ended by an unavailable
+   presence that arrives while another Channel is registered; every value
+   Joined() returns is that one. *)
+Theorem C18_membership_exact : forall tr s h,
+  exec tr = Some s -> ch_joined (chans s h) = member_impl tr h.
 Proof. exact membership_impl. Qed.
 Print Assumptions C18_membership_exact.
 
-Theorem C18_joined_reports_membership : forall tr a b s,
-  exec (tr ++ [LQuery a b]) = Some s -> b = member_impl tr a.
+Theorem C18_joined_reports_membership : forall tr h b s,
+  exec (tr ++ [LQuery h b]) = Some s -> b = member_impl tr h.
 Proof. exact query_reports_membership. Qed.
 Print Assumptions C18_joined_reports_membership.
 
 (* The full statement is false of the code as it must stay (muc_test.go
    TestPartError requires Joined() to be false after a refused Leave): join,
-   self-presence, Leave, error reply. *)
+   self-presence, Leave, error reply ... *)
 Theorem C18_membership_window_refuted :
-  exists tr s a, exec tr = Some s /\ ch_joined (chans s a) <> member_window tr a.
+  exists tr s h, exec tr = Some s /\ ch_joined (chans s h) <> member_window tr h.
 Proof. exact membership_window_refuted. Qed.
 Print Assumptions C18_membership_window_refuted.
 
+(* ... and, without any refused Leave, of a Channel that a second Client.Join for
+   its address has replaced in the table: it does not see the occupant's
+   unavailable presence and stays a member (known finding). *)
+Theorem C18_membership_orphan_refuted :
+  exists s, exec orphan_trace = Some s /\ ch_joined (chans s 0) = true /\ member_window orphan_trace 0 = false /\
+            (forall k, ~ In (LRet k OStanzaErr) orphan_trace).
+Proof. exact membership_orphan_refuted. Qed.
+Print Assumptions C18_membership_orphan_refuted.
+
 (* ---- Leave ---- *)
 
-(* Leave returns success only after the occupant's unavailable presence was
-   handled after the call started. *)
-Theorem C18_leave_returns_on_unavailable_or_error : forall tr s k a,
-  exec (tr ++ [LRet k OSuccess]) = Some s -> In (LCall k KLeave a) tr ->
-  exists t1 t2 t3, tr = t1 ++ LCall k KLeave a :: t2 ++ LDeliver (PresUnavail a) :: t3.
+(* Leave on Channel h returns success only after the unavailable presence of h's
+   address was handled, after the call started, while h was the registered
+   Channel. *)
+Theorem C18_leave_returns_on_unavailable_or_error : forall tr s k h,
+  exec (tr ++ [LRet k OSuccess]) = Some s -> In (LCall k KLeave h) tr ->
+  exists t1 t2 t3 a s1,
+    tr = t1 ++ LCall k KLeave h :: t2 ++ LDeliver (PresUnavail a) :: t3 /\
+    exec (t1 ++ LCall k KLeave h :: t2) = Some s1 /\ table s1 a = Some h /\ ch_addr (chans s1 h) = a.
 Proof. exact leave_success_after_unavailable. Qed.
 Print Assumptions C18_leave_returns_on_unavailable_or_error.
 
 (* Conversely, once that presence is handled membership ends and the waiting
    Leave can return; and the notification is kept for it: no step of anybody
    else takes it away, wherever the Leave call is on its way to its select. *)
-Theorem C18_unavailable_completes_leave : forall tr s k c a,
+Theorem C18_unavailable_completes_leave : forall tr s k c a h,
   exec tr = Some s ->
-  srv s = SIdle -> ch_entry (chans s a) = true ->
-  calls s k = Some c -> c_kind c = KLeave -> c_addr c = a -> c_phase c = PWait ->
+  srv s = SIdle -> table s a = Some h ->
+  calls s k = Some c -> c_kind c = KLeave -> c_chan c = h -> c_phase c = PWait ->
   exists s1 s2,
     step s (LDeliver (PresUnavail a)) = Some s1 /\
-    ch_joined (chans s1 a) = false /\ ch_entry (chans s1 a) = false /\
+    ch_joined (chans s1 h) = false /\ table s1 a = None /\
     step s1 (LRet k OSuccess) = Some s2.
 Proof. exact unavailable_completes_leave_r. Qed.
 Print Assumptions C18_unavailable_completes_leave.
 
 Theorem C18_departure_notification_kept : forall tr s l s' k c,
   exec tr = Some s -> step s l = Some s' ->
-  calls s k = Some c -> c_kind c = KLeave -> c_phase c = PWait -> ch_dep (chans s (c_addr c)) = true ->
+  calls s k = Some c -> c_kind c = KLeave -> c_phase c = PWait -> ch_dep (chans s (c_chan c)) = true ->
   (forall o, l <> LRet k o) ->
-  ch_dep (chans s' (c_addr c)) = true /\
-  exists c', calls s' k = Some c' /\ c_kind c' = KLeave /\ c_phase c' = PWait /\ c_addr c' = c_addr c.
+  ch_dep (chans s' (c_chan c)) = true /\
+  exists c', calls s' k = Some c' /\ c_kind c' = KLeave /\ c_phase c' = PWait /\ c_chan c' = c_chan c.
 Proof. exact departure_kept_r. Qed.
 Print Assumptions C18_departure_notification_kept.
 
-(* ---- rooms never joined, invitations ---- *)
+(* ---- rooms never joined ---- *)
 
-(* Presences from an address no join was ever requested for change nothing,
-   whatever their payload is — well-formed (available or unavailable) or one that
-   does not decode (PresBad: unknown role or affiliation, malformed jid): the
-   resulting state is the state before, so there is no callback, no effect on
-   any call, the Serve loop is still idle (no error was returned to it) and
-   everything that could happen before can happen after, e.g. a later join. *)
+(* Presences from an address for which no Channel was ever made (no join was
+   ever requested for it) change nothing, whatever their payload is —
+   well-formed (available or unavailable) or one that does not decode (PresBad:
+   unknown role or affiliation, malformed jid): the resulting state is the state
+   before, so there is no callback, no effect on any call, the Serve loop is
+   still idle (no error was returned to it) and everything that could happen
+   before can happen after, e.g. a later join. *)
 Theorem C18_unjoined_rooms_ignored : forall tr s a,
-  exec tr = Some s -> (forall k, ~ In (LCall k KJoin a) tr) -> srv s = SIdle ->
+  exec tr = Some s -> (forall h, ~ In (LNew h a) tr) -> srv s = SIdle ->
   step s (LDeliver (PresAvail a)) = Some s /\ step s (LDeliver (PresUnavail a)) = Some s /\
   step s (LDeliver (PresBad a)) = Some s.
 Proof. exact unjoined_rooms_ignored. Qed.
@@ -175,8 +220,8 @@ Print Assumptions C18_unjoined_rooms_ignored.
 
 (* (The contrast, to show that the payload matters where the address is managed:
    there the undecodable payload is an error that ends the Serve loop.) *)
-Theorem C18_managed_bad_payload_ends_serve : forall s a,
-  srv s = SIdle -> ch_entry (chans s a) = true ->
+Theorem C18_managed_bad_payload_ends_serve : forall s a h,
+  srv s = SIdle -> table s a = Some h ->
   exists s', step s (LDeliver (PresBad a)) = Some s' /\ srv s' = SDead /\
              forall st, step s' (LDeliver st) = None.
 Proof. exact managed_bad_payload_ends_serve. Qed.
